@@ -24,7 +24,8 @@ from hypothesis import strategies as st
 from .. import arrays as A
 from .. import gen as G
 from ..core import EXACT64, INV64, Reject, SubCheck, Violation, rejecting, rel_err
-from ..oracle import einsum_value, embed, tn_tensors
+from ..core import HarnessError
+from ..oracle import embed, tn_tensors
 
 RULE = ("receivers: generic labelled networks (tree/loopy, labels drawn from a pool of ordinary names a,b,c,l0,r0,...), "
         "MPS open/cyclic with mixed physical dimensions, MPO, arbitrary-graph vectors/operators, PEPS/PEPO up to 3x3, "
@@ -56,6 +57,67 @@ def qtn():
 
 def c128(a):
     return np.asarray(a).astype(np.complex128)
+
+
+class SizeMismatch(Exception):
+    """One label carries two different sizes inside a network (a property of the network, not of the harness)."""
+
+
+def _einsum(ops, out):
+    """numpy.einsum in integer-sublist form with labels renumbered *per call* (numpy allows only 52 distinct subscripts
+    per call; a lazily gated network as a whole may own more)."""
+    loc = {}
+    args = []
+    for a, labs in ops:
+        args += [a, [loc.setdefault(l, len(loc)) for l in labs]]
+    if len(loc) > 52:
+        raise HarnessError(f"{len(loc)} labels in one einsum call")
+    return np.einsum(*args, [loc[l] for l in out])
+
+
+def einsum_value(tensors, output):
+    """Denotation of [(array, labels)] over `output` (labels on >= 3 tensors allowed): pairwise numpy.einsum reduction in an
+    order chosen by an own greedy size heuristic (same scheme as vf.oracle.einsum_value, which is not used here because it
+    numbers the labels globally and therefore hits numpy's 52-subscript limit on large lazily gated networks)."""
+    ops = [(np.asarray(a), tuple(labs)) for a, labs in tensors]
+    output = tuple(output)
+    if not ops:
+        return np.array(1.0)
+    size = {}
+    for a, labs in ops:
+        if a.ndim != len(labs):
+            raise HarnessError("rank / label mismatch")
+        for d, l in zip(a.shape, labs):
+            if size.setdefault(l, d) != d:
+                raise SizeMismatch(f"label {l!r} has sizes {size[l]} and {d}")
+    missing = [l for l in output if l not in size]
+    if missing:
+        raise HarnessError(f"output labels {missing[:3]} not in the network")
+    while len(ops) > 1:
+        n = len(ops)
+        sets = [set(l) for _, l in ops]
+        best = None
+        for i in range(n):
+            for j in range(i + 1, n):
+                shared = sets[i] & sets[j]
+                if not shared and best is not None and best[0][0] == 0:
+                    continue
+                others = set(output)
+                for k in range(n):
+                    if k != i and k != j:
+                        others |= sets[k]
+                keep = [x for x in (sets[i] | sets[j]) if x in others]
+                sz = 1
+                for x in keep:
+                    sz *= size[x]
+                key = (0 if shared else 1, sz)
+                if best is None or key < best[0]:
+                    best = (key, i, j, keep)
+        _, i, j, keep = best
+        keep = tuple(sorted(keep))
+        c = _einsum([ops[i], ops[j]], keep)
+        ops = [o for k, o in enumerate(ops) if k not in (i, j)] + [(c, keep)]
+    return _einsum(ops, output)
 
 
 def dense(tn, order):
@@ -116,7 +178,7 @@ def verify(before_vec, floor, after, order, dims, actions, tol=TOL, keep_tags=()
             raise Violation("repeated-label", **info)
     try:
         got = dense(after, order)
-    except ValueError as e:  # numpy refuses: inconsistent sizes for one label
+    except SizeMismatch as e:  # one label with two sizes: the returned network itself is inconsistent
         raise Violation("inconsistent-network", msg=str(e)[:60], **info)
     ref = apply_ops(before_vec, dims, actions)
     if got.shape != ref.shape:
